@@ -51,6 +51,14 @@ func main() {
 		case "--budget":
 			i++
 			budget, _ = strconv.Atoi(os.Args[i])
+		case "--replay":
+			i++
+			v, err := core.LoadReplay(os.Args[i])
+			if err != nil {
+				fmt.Fprintln(os.Stderr, "replay:", err)
+				os.Exit(2)
+			}
+			rep = v
 		}
 	}
 	var seed int64
